@@ -129,6 +129,11 @@ func genFSR(r *rand.Rand, enc byte, n int) ([]byte, *ipmi.FullSensorRecord, stri
 	v.Identity = string(s)
 	tl, idb := refcodec.IDString(enc, s)
 	rec := refcodec.FullSensorRecord(v, tl, idb, rbytes(r, 43))
+	if r.Intn(6) == 0 {
+		// bit 5 of the type/length byte is reserved in an SDR (the length is bits 4:0): like the
+		// other reserved bits of the record it carries noise that a reader ignores
+		rec[42] |= 0x20
+	}
 	if r.Intn(3) == 0 {
 		// bytes after the ID string (the optional OEM byte, or a longer record than the name needs)
 		rec = append(rec, rbytes(r, 1+r.Intn(3))...)
